@@ -492,6 +492,26 @@ package opset13
 //@ func (*LSTM).Apply
 //@   tags C06,C02
 //@   requires self != nil
+//@   before gateCalculation#1 assert input_gate_w_is_block_0: extracted_block($arg2, inputs[1], 0, self.hiddenSize)
+//@   before gateCalculation#1 assert input_gate_r_is_block_0: extracted_block($arg5, inputs[2], 0, self.hiddenSize)
+//@   before gateCalculation#1 assert input_gate_input_bias_is_block_0: extracted_block($arg3, B, 0, self.hiddenSize)
+//@   before gateCalculation#1 assert input_gate_hidden_bias_is_block_4: extracted_block($arg6, B, 4, self.hiddenSize)
+//@   before gateCalculation#1 assert input_gate_peephole_is_block_0: (inputs[7] == nil ==> $arg7 == nil) && (inputs[7] != nil ==> extracted_block($arg7, inputs[7], 0, self.hiddenSize))
+//@   before gateCalculation#2 assert forget_gate_w_is_block_2: extracted_block($arg2, inputs[1], 2, self.hiddenSize)
+//@   before gateCalculation#2 assert forget_gate_r_is_block_2: extracted_block($arg5, inputs[2], 2, self.hiddenSize)
+//@   before gateCalculation#2 assert forget_gate_input_bias_is_block_2: extracted_block($arg3, B, 2, self.hiddenSize)
+//@   before gateCalculation#2 assert forget_gate_hidden_bias_is_block_6: extracted_block($arg6, B, 6, self.hiddenSize)
+//@   before gateCalculation#2 assert forget_gate_peephole_is_block_2: (inputs[7] == nil ==> $arg7 == nil) && (inputs[7] != nil ==> extracted_block($arg7, inputs[7], 2, self.hiddenSize))
+//@   before gateCalculation#3 assert cell_gate_w_is_block_3: extracted_block($arg2, inputs[1], 3, self.hiddenSize)
+//@   before gateCalculation#3 assert cell_gate_r_is_block_3: extracted_block($arg5, inputs[2], 3, self.hiddenSize)
+//@   before gateCalculation#3 assert cell_gate_input_bias_is_block_3: extracted_block($arg3, B, 3, self.hiddenSize)
+//@   before gateCalculation#3 assert cell_gate_hidden_bias_is_block_7: extracted_block($arg6, B, 7, self.hiddenSize)
+//@   before gateCalculation#3 assert cell_gate_has_no_peephole: $arg7 == nil
+//@   before gateCalculation#4 assert output_gate_w_is_block_1: extracted_block($arg2, inputs[1], 1, self.hiddenSize)
+//@   before gateCalculation#4 assert output_gate_r_is_block_1: extracted_block($arg5, inputs[2], 1, self.hiddenSize)
+//@   before gateCalculation#4 assert output_gate_input_bias_is_block_1: extracted_block($arg3, B, 1, self.hiddenSize)
+//@   before gateCalculation#4 assert output_gate_hidden_bias_is_block_5: extracted_block($arg6, B, 5, self.hiddenSize)
+//@   before gateCalculation#4 assert output_gate_peephole_is_block_1: (inputs[7] == nil ==> $arg7 == nil) && (inputs[7] != nil ==> extracted_block($arg7, inputs[7], 1, self.hiddenSize))
 //@   scope inputs_validated: apply_inputs_validated(asop(self), inputs)
 //@   modifies opstate(self)
 //@   ensures sequence_lens_refused: inputs[4] != nil ==> err != nil
@@ -508,6 +528,18 @@ package opset13
 //@ func (*GRU).Apply
 //@   tags C06,C02
 //@   requires self != nil
+//@   before gateCalculation#1 assert update_gate_w_is_block_0: extracted_block($arg3, inputs[1], 0, self.hiddenSize)
+//@   before gateCalculation#1 assert update_gate_r_is_block_0: extracted_block($arg4, inputs[2], 0, self.hiddenSize)
+//@   before gateCalculation#1 assert update_gate_input_bias_is_block_0: extracted_block($arg5, B, 0, self.hiddenSize)
+//@   before gateCalculation#1 assert update_gate_hidden_bias_is_block_3: extracted_block($arg6, B, 3, self.hiddenSize)
+//@   before gateCalculation#2 assert reset_gate_w_is_block_1: extracted_block($arg3, inputs[1], 1, self.hiddenSize)
+//@   before gateCalculation#2 assert reset_gate_r_is_block_1: extracted_block($arg4, inputs[2], 1, self.hiddenSize)
+//@   before gateCalculation#2 assert reset_gate_input_bias_is_block_1: extracted_block($arg5, B, 1, self.hiddenSize)
+//@   before gateCalculation#2 assert reset_gate_hidden_bias_is_block_4: extracted_block($arg6, B, 4, self.hiddenSize)
+//@   before htCalculation assert hidden_gate_w_is_block_2: extracted_block($arg4, inputs[1], 2, self.hiddenSize)
+//@   before htCalculation assert hidden_gate_r_is_block_2: extracted_block($arg5, inputs[2], 2, self.hiddenSize)
+//@   before htCalculation assert hidden_gate_input_bias_is_block_2: extracted_block($arg6, B, 2, self.hiddenSize)
+//@   before htCalculation assert hidden_gate_hidden_bias_is_block_5: extracted_block($arg7, B, 5, self.hiddenSize)
 //@   before Reshape#3 assert y_reshaped: rank(Y) == 4 && dim(Y, 0) == seqLength && dim(Y, 1) == 1 && dim(Y, 2) == batchSize && dim(Y, 3) == self.hiddenSize
 //@   before Reshape#3 assert extents_read_at_entry: seqLength == old(dim(inputs[0], 0)) && batchSize == old(dim(inputs[0], 1))
 //@   before Reshape#3 assert y_and_y_h_are_different_tensors: ref(Y) != ref(Yh)
@@ -525,6 +557,10 @@ package opset13
 //@ func (*RNN).Apply
 //@   tags C06,C02
 //@   requires self != nil
+//@   before layerCalculation assert w_is_block_0: extracted_block($arg3, inputs[1], 0, self.hiddenSize)
+//@   before layerCalculation assert r_is_block_0: extracted_block($arg4, inputs[2], 0, self.hiddenSize)
+//@   before layerCalculation assert input_bias_is_block_0: extracted_block($arg5, B, 0, self.hiddenSize)
+//@   before layerCalculation assert hidden_bias_is_block_1: extracted_block($arg6, B, 1, self.hiddenSize)
 //@   before Reshape#3 assert y_reshaped: rank(Y) == 4 && dim(Y, 0) == seqLength && dim(Y, 1) == 1 && dim(Y, 2) == batchSize && dim(Y, 3) == self.hiddenSize
 //@   before Reshape#3 assert extents_read_at_entry: seqLength == old(dim(inputs[0], 0)) && batchSize == old(dim(inputs[0], 1))
 //@   before Reshape#3 assert y_and_y_h_are_different_tensors: ref(Y) != ref(Yh)
